@@ -139,8 +139,10 @@ def time_evolution_derivatives(
         output_circuits = []
         final_factors = []
 
+        # every step that is not parameter-shifted evolves for time / n_steps,
+        # exactly like the steps of time_evolution(hamiltonian, time, n_steps)
         repeated_circuit = time_evolution(
-            hamiltonian, time, method="Trotter", n_steps=1
+            hamiltonian, time / n_steps, method="Trotter", n_steps=1
         )
 
         for position in range(n_steps):
